@@ -197,6 +197,10 @@ def _storage_sites(f):
                 d = dict(a[3])
                 if "start" in d and "end" in d:
                     out.append((b, "range", (mir.strip_casts(d["start"]), mir.strip_casts(d["end"]))))
+            elif isinstance(a, tuple) and a[0] == "agg" and a[2] in ("RangeFrom", "RangeTo"):
+                # `items[p..]` / `items[..p]`: one of the two pieces of a wrapped range, like a split at p
+                d = dict(a[3])
+                out.append((b, "split", (mir.strip_casts(d.get("start", d.get("end"))),)))
         else:
             out.append((b, "split", (mir.strip_casts(args[1]),)))
     return out
